@@ -28,8 +28,11 @@ where
     RST: OutputPin,
 {
     fn draw_batch(&mut self, item_pixels: I) -> Result<(), DI::Error> {
-        //  Get the pixels for the item to be rendered.
-        let pixels = item_pixels.into_iter();
+        //  Get the pixels for the item to be rendered, discard the ones outside of the display.
+        let bounding_box = self.bounding_box();
+        let pixels = item_pixels
+            .into_iter()
+            .filter(move |Pixel(point, _)| bounding_box.contains(*point));
         //  Batch the pixels into Pixel Rows.
         let rows = to_rows(pixels);
         //  Batch the Pixel Rows into Pixel Blocks.
